@@ -24,6 +24,7 @@ package pogreb
 //@   ensures index-main-untouched: err == nil ==> fileUnchanged(theDB().index.main)
 //@   ensures index-overflow-untouched: err == nil ==> fileUnchanged(theDB().index.overflow)
 //@   ensures kept: forall i int :: 0 <= i && i < 32767 && old(theDB().datalog.segments[i]) != nil ==> theDB().datalog.segments[i] == old(theDB().datalog.segments[i])
+//@   ensures table-grows: tableGrows(theDB().datalog)
 //@   ensures [C03] sealed-untouched: err == nil ==> forall i int :: 0 <= i && i < 32767 && old(theDB().datalog.segments[i]) != nil && old(theDB().datalog.segments[i].meta.Full) ==> fLen[fidOf[theDB().datalog.segments[i].file.File]] == old(fLen[fidOf[theDB().datalog.segments[i].file.File]]) && fData[fidOf[theDB().datalog.segments[i].file.File]] == old(fData[fidOf[theDB().datalog.segments[i].file.File]])
 //@   modifies any(datalog).curSeg, any(datalog).segments, any(datalog).maxSequenceID, any(segmentMeta).Full, any(segmentMeta).PutRecords, any(segmentMeta).DeleteRecords, any(segmentMeta).DeletedKeys, any(segmentMeta).DeletedBytes, any(file).size, dirFid[theDB().opts.FileSystem], fLen, fDur, fData, hOpen, hPos, fidOf, fidName
 
@@ -39,12 +40,21 @@ package pogreb
 //@   ensures inv-log: err == nil ==> dbInv(theDB())
 //@   ensures inv-idx: err == nil ==> idxFiles(idx) && idxLH(idx)
 //@   ensures inv-disjoint: err == nil ==> idxLogDisjoint(theDB())
+//@   ensures [C01] inv-main-chains: err == nil ==> chainsOK(fData[fidOf[idx.main.File]], idx.main.size, idx.overflow.size)
+//@   ensures [C01] inv-overflow-chains: err == nil ==> chainsOK(fData[fidOf[idx.overflow.File]], idx.overflow.size, idx.overflow.size)
+//@   ensures [C01] inv-main-in-log: err == nil ==> slotsInLog(fData[fidOf[idx.main.File]], idx.main.size, theDB().datalog)
+//@   ensures [C01] inv-overflow-in-log: err == nil ==> slotsInLog(fData[fidOf[idx.overflow.File]], idx.overflow.size, theDB().datalog)
 //@   ensures kept: forall i int :: 0 <= i && i < 32767 && old(theDB().datalog.segments[i]) != nil ==> theDB().datalog.segments[i] == old(theDB().datalog.segments[i])
 //@   at return: assert [C01] miss-only-at-chain-end: err == nil ==> it.off == 0 || old(keyOfSlotIs(theDB().datalog, sl, theKey()))
 //@   at call matchKey@1: cases which-file: b.file == idx.main || b.file == idx.overflow
 //@   at call matchKey@1: hint slot-on-disk: slotEncoded(fData[fidOf[b.file.File]], int(b.offset)+16*i, sl) && bucketAt(b.offset, b.file.size) && sl.offset != 0
 //@   at call matchKey@1: hint slot-position: slotPos(b.offset + 16*int64(i), b.file.size)
 //@   at call matchKey@1: hint slot-in-log: trig(b.offset + 16*int64(i)) && slotInSegAt(theDB().datalog, fData[fidOf[b.file.File]], b.offset + 16*int64(i))
+//@   at call del@1: hint main-in-log-after-callback: slotsInLog(fData[fidOf[idx.main.File]], idx.main.size, theDB().datalog)
+//@   at call del@1: hint overflow-in-log-after-callback: slotsInLog(fData[fidOf[idx.overflow.File]], idx.overflow.size, theDB().datalog)
+//@   at call del@1: hint bucket-in-log-before-del: bucketInLog(b.bucket, theDB().datalog)
+//@   at call write@1: cases which-file-written: b.file == idx.main || b.file == idx.overflow
+//@   at call write@1: hint bucket-in-log-after-del: bucketInLog(b.bucket, theDB().datalog)
 //@   modifies any(index).numKeys, any(datalog).curSeg, any(datalog).segments, any(datalog).maxSequenceID, any(segmentMeta).Full, any(segmentMeta).PutRecords, any(segmentMeta).DeleteRecords, any(segmentMeta).DeletedKeys, any(segmentMeta).DeletedBytes, any(file).size, dirFid[theDB().opts.FileSystem], fLen, fDur, fData, hOpen, hPos, fidOf, fidName
 //@   loop 1:
 //@     invariant idx == old(idx) && hash == old(hash) && it != nil && fresh(it) && it.overflow == idx.overflow
@@ -57,5 +67,6 @@ package pogreb
 //@ func (db *DB) del(h uint32, key []byte, writeWAL bool) (err error) [C01,C03,C06,C16]
 //@   requires inv: db == theDB() && key == theKey() && dbFull(db) && idxInLog(db)
 //@   ensures inv: err == nil ==> dbInv(db)
+//@   ensures [C01] inv-index: err == nil ==> dbFull(db) && idxInLog(db)
 //@   ensures kept: forall i int :: 0 <= i && i < 32767 && old(db.datalog.segments[i]) != nil ==> db.datalog.segments[i] == old(db.datalog.segments[i])
 //@   modifies any(index).numKeys, any(datalog).curSeg, any(datalog).segments, any(datalog).maxSequenceID, any(segmentMeta).Full, any(segmentMeta).PutRecords, any(segmentMeta).DeleteRecords, any(segmentMeta).DeletedKeys, any(segmentMeta).DeletedBytes, any(file).size, dirFid[db.opts.FileSystem], fLen, fDur, fData, hOpen, hPos, fidOf, fidName
